@@ -304,6 +304,21 @@ pub fn c04(tier: Tier) -> i32 {
     let mut d = a.describe();
     d["max_events"] = json!(n);
     ctx.alphabets.push(d);
+    // the same identities on ledgers with SPLIT/UNSPLIT inside 30-day windows, sale fees and several legs per disposal
+    {
+        let a2 = mcx::profiles::match1(&["2"], true);
+        let n2 = if tier == Tier::Quick { 5 } else { 6 };
+        let t1 = std::time::Instant::now();
+        let part = {
+            let ctxr2: &Ctx = &ctx;
+            a2.explore(n2, Acc::new, |acc, idx| visit_c04(ctxr2, &env, &cfg, acc, &a2.ledger(idx)), Acc::merge)
+        };
+        eprintln!("  [C04] profile match1-reduced N<={n2}: {} states in {:.1}s", part.states, t1.elapsed().as_secs_f64());
+        let mut d2 = a2.describe();
+        d2["max_events"] = json!(n2);
+        ctx.alphabets.push(d2);
+        acc = Acc::merge(acc, part);
+    }
     // the real configuration loader through the CLI (process-level configuration menu)
     crate::cli::c04_config_menu(&mut ctx, &mut acc);
     for k in ["shape:several-tax-years", "shape:year-with-gains-and-losses", "shape:year-with-dividends", "shape:zero-result-disposal", "shape:several-fills-on-one-day", "shape:dividend-year-without-disposals", "config:year-removed"] {
@@ -334,6 +349,35 @@ fn visit_c07(ctx: &Ctx, env: &Env, acc: &mut Acc, txs: &[Transaction]) {
     }
     for d in order_invariants(&all) {
         acc.violation(&ctx.findings, "C07", v(d.clause, txs, d.detail, Value::Null));
+    }
+    // "years outside the exemption table": with a table that knows only ONE of the years that have disposals, the
+    // report of that year is still the all-years slice (the other years' missing amounts are no obstacle to it)
+    if va.years.len() >= 2 {
+        for keep in va.years.iter().map(|y| y.year) {
+            let mut partial = Config::default();
+            if let Some(a) = env.cfg.exemptions.get(&(keep as u16)) {
+                partial.exemptions.insert(keep as u16, *a);
+            }
+            acc.validated += 1;
+            acc.bump("filter:only-this-year-configured");
+            let cx = json!({"year_filter": keep, "configured_years": [keep]});
+            match run_calc(txs, Some(keep), Some(&env.fx), &partial) {
+                Outcome::Report(fr) => {
+                    let vf = view::view(&fr);
+                    if let (Some(ay), Some(fy)) = (va.years.iter().find(|t| t.year == keep), vf.years.first()) {
+                        let one_a = view::RV { years: vec![ay.clone()], holdings: va.holdings.clone() };
+                        let one_f = view::RV { years: vec![fy.clone()], holdings: vf.holdings.clone() };
+                        for d in view::diff_reports(&one_f, &one_a, Level::L3, &CmpOpts { label_a: "year-report", label_b: "all-years-slice", ..Default::default() }) {
+                            acc.violation(&ctx.findings, "C07", v("slice-differs", txs, d.detail, cx.clone()));
+                        }
+                    } else {
+                        acc.violation(&ctx.findings, "C07", v("slice-shape", txs, format!("year filter {keep}: no summary for that year"), cx));
+                    }
+                }
+                Outcome::Err { msg, .. } => acc.violation(&ctx.findings, "C07", v("slice-refused", txs, format!("the report of {keep}, the only configured year, fails because of another year: {msg}"), cx)),
+                Outcome::Panic(m) => acc.violation(&ctx.findings, "C07", v("panic", txs, m, cx)),
+            }
+        }
     }
     let l = lines_of(env, txs);
     let mut filters: Vec<i32> = va.years.iter().map(|y| y.year).collect();
